@@ -51,11 +51,16 @@ def mant(v, bits=26):
 
 
 def relayout(a, h):
-    """the same values in another storage layout / dtype (chosen by h): C, Fortran, strided view, float32 or integer when exact.
+    """the same values in another storage layout / dtype (chosen by h): C, Fortran, strided view, float32 or integer when exact, nested list, pandas Series / DataFrame.
     Used by the replays: a function of array-like data must not depend on how the caller stores the numbers."""
     import numpy as np
     a = np.asarray(a)
-    k = h % 5
+    k = h % 7
+    if k == 5:
+        return a.tolist()                      # plain (nested) Python list
+    if k == 6:
+        import pandas as pd
+        return pd.Series(a, index=pd.RangeIndex(3, 3 + len(a))) if a.ndim == 1 else pd.DataFrame(a)
     if k == 0:
         return np.ascontiguousarray(a)
     if k == 1:
@@ -74,3 +79,15 @@ def relayout(a, h):
     if k == 4 and a.dtype.kind == "f" and a.size and np.all(np.isfinite(a)) and np.all(a == np.round(a)) and np.all(np.abs(a) < 2 ** 31):
         return a.astype(np.int64)
     return a
+
+
+LAYOUT_ERRORS = (TypeError, AttributeError, ValueError, KeyError, IndexError)
+
+
+def try_layout(fn, plain_args, variant_args):
+    """call fn on the variant storage of the arguments; a Python exception there means "this container type is not
+    accepted" (allowed by the properties): the plain arrays are used instead.  Returns (result, used_variant)."""
+    try:
+        return fn(*variant_args), True
+    except LAYOUT_ERRORS:
+        return fn(*plain_args), False
